@@ -3,6 +3,7 @@ package rules
 import (
 	"go/ast"
 	"go/token"
+	"go/types"
 	"sort"
 	"strings"
 
@@ -35,6 +36,16 @@ var reviewedBlocking = map[string]string{
 	"(*dht.query).run | wait | q.waitGroup":                                  "deferred join of the lookup's workers; Add/Done discipline verified by C03.R8; workers are cancelled by terminate",
 	"(*dht.IpfsDHT).GetPublicKey | recv | resp":                              "`for range 2` over a capacity-2 channel with two once-sending goroutines (C03.R2)",
 	"(*dht/fullrt.FullRT).execOnMany | select | ":                            "counted loop numDone < len(peers) over a channel of capacity len(peers) fed by len(peers) once-sending workers under a timeout context (C03.R7)",
+}
+
+// constCapVerified: channels of constant capacity whose sender count is verified elsewhere,
+// keyed by "<owner function> | <element type>".
+var constCapVerified = map[string]string{
+	"(*dht.IpfsDHT).GetPublicKey | dht.pubkrs":                              "two once-sending goroutines, capacity 2 (C03.R2)",
+	"(*dht.IpfsDHT).getValues | *dht.lookupWithFollowupResult":              "at most one send per run, capacity 1 (C03.R2)",
+	"(*dht/fullrt.FullRT).getValues | *dht/fullrt.lookupWithFollowupResult": "at most one send per run, capacity 1 (C03.R2)",
+	"(*dht/internal/net.peerMessageSender).ctxReadMsg | error":              "one reader sending at most once, capacity 1 (C10.R5)",
+	"dht/crawler.ctxReadMsg | error":                                        "one reader sending once, capacity 1 (C10.R5)",
 }
 
 type blockClass struct {
@@ -150,8 +161,20 @@ func classifyBlocking(c *Ctx, op eng.BlockOp) blockClass {
 			return blockClass{"B1", why}
 		}
 	case "send":
-		if made, capE, _ := chanOrigin(p, f, op.Chan, 0); made && capE != nil {
-			return blockClass{"B2", "buffered channel, capacity " + eng.ExprStr(capE)}
+		if made, capE, owner := chanOrigin(p, f, op.Chan, 0); made && capE != nil {
+			if _, isConst := eng.ConstInt(owner.Info(), capE); !isConst {
+				return blockClass{"B2", "buffered channel, capacity " + eng.ExprStr(capE) + " (bounds its senders: C03.R2/R7, C02.R4)"}
+			}
+			// a constant capacity covers its senders only where the sender count was verified
+			elem := ""
+			if tv, ok := info.Types[op.Chan]; ok {
+				if ch, isCh := tv.Type.Underlying().(*types.Chan); isCh {
+					elem = eng.Short(ch.Elem().String())
+				}
+			}
+			if why, ok := constCapVerified[owner.Name+" | "+elem]; ok {
+				return blockClass{"B2", "buffered channel, constant capacity " + eng.ExprStr(capE) + ": " + why}
+			}
 		}
 	case "wait":
 		// local WaitGroup: every goroutine of this function that mentions it defers Done (or it uses .Go)
